@@ -8,7 +8,7 @@ MANIFEST = {
     "text": "Coq theorems: C03_cover (for ALL local transactions = lists of row-level update/delete/insert statements over the C18 kernel: "
             "every row whose content differs across the local commit is named by the lock keys of one of its statements), C03_canonical (key "
             "text is a function of table and key values whatever the image's column order / repeated key columns; the shipped pre-repair "
-            "builder is refuted: C03_canonical_refuted_legacy), C03_parse (coordinator's parse of the joined text = the keys, for values "
+            "builder is refuted: C03_canonical_refuted_legacy; C03_canonical_sfu: the locking read's own builder gives the same text), C03_parse (coordinator's parse of the joined text = the keys, for values "
             "without , _ ; :  -- integers always; C03_parse_refuted: ambiguity witnesses with separators), C03_sfu (rows handed out only after a "
             "lockable answer covering exactly their keys; conflict => Err and ROLLBACK TO), C03_isolation (any schedule of local commits of any "
             "number of global transactions, coordinator grants a key to one xid at a time, keys cover writes => written row sets disjoint; "
